@@ -49,6 +49,8 @@ def compare_ops(ctx, lmq, model_exe, sess, m, stats):
     """State / Left comparison, ordering and hashing: implementation vs model, plus the consistency oracle"""
     rng = ctx.rng
     lines = []
+    if ctx.replaying and "case" in ctx.replay_obj:
+        lines.append(ctx.replay_obj["case"])
     pool = [0, 1, 2, 255, 256, 257, 0xffff, 0x10000, 0xff000000, 0x00ffffff, 0xffffffff, 0x01000000, 0x7fffffff, 0x80000000]
     for _ in range(ctx.pick(300, 3000)):
         la, lb = rng.range(0, 5), rng.range(0, 5)
@@ -70,8 +72,16 @@ def compare_ops(ctx, lmq, model_exe, sess, m, stats):
         if rng.chance(1, 2):
             l2 = l1
         lines.append("L %d %x %d %d %x %d" % (l1, p1, rng.below(2), l2, p2, rng.below(2)))
-    rc, out, err = vlib.sh([lmq, sess.arpa, "probing", sess.vocab], input=("\n".join(lines) + "\n").encode(), timeout=120)
-    iout = out.split("\n")[1:1 + len(lines)]
+    # the comparison operators do not depend on the model: any structure that accepts this file will do
+    iout = []
+    for typ in ("probing", "trie"):
+        rc, out, err = vlib.sh([lmq, sess.arpa, typ, sess.vocab, "tmp=" + sess.dir + "/"], input=("\n".join(lines) + "\n").encode(), timeout=120)
+        if out.startswith("loaded"):
+            iout = out.split("\n")[1:1 + len(lines)]
+            break
+    if not iout:
+        stats["compare_skipped_model_not_accepted"] = stats.get("compare_skipped_model_not_accepted", 0) + 1
+        return []
     setup = m.session_lines()
     mout = vlib.run_lines(model_exe, setup + lines)[len(setup):]
     problems = []
@@ -99,10 +109,10 @@ def run(ctx):
     rng = ctx.rng
     stats = {}
     allprob = []
-    nmodels = ctx.pick(30, 1000)
+    nmodels = 1 if (ctx.replay_model or ctx.replaying) else ctx.pick(30, 1000)
     nontrivial = 0
     for mi in range(nmodels):
-        m = lc.gen_model(rng, max_order=ctx.pick(5, 6), max_vocab=ctx.pick(6, 20))
+        m = ctx.replay_model or lc.gen_model(rng, max_order=ctx.pick(5, 6), max_vocab=ctx.pick(6, 20))
         sess = lc.Session(ctx, m, "m%d" % mi)
         # many short histories over a small vocabulary: plenty of colliding states
         qs = lc.gen_queries(rng, m, ctx.pick(60, 200))
@@ -143,3 +153,8 @@ def run(ctx):
         for sig, what, rq, found in allprob:
             ctx.report(sig, what, rq, False)
         ctx.report_proof(pres)
+
+
+def replay(ctx, obj):
+    import sys
+    return lc.lm_replay(sys.modules[__name__], ctx, obj)
